@@ -2,7 +2,7 @@
 (* Code -> spec direction for C06.  The harness builds random worlds (IOEnv.WORLDS: one JSON record per world,
    {"world","root","nodes"}) and sends random, deeper request paths plus every file and directory of each
    world under its spellings to the real handlers, logging one record per call (IOEnv.TRACE:
-   {"w","h","route","uri","st","id","ct","loc","canary"}).  Every record must be an answer the property admits
+   {"w","h","route","uri","st","id","ct","loc","canary"}; h = serve_dir | directory | file_path | serve_file).  Every record must be an answer the property admits
    (Conforms against Expect, the same operators TLC used on the bounded space) and must be confined; every
    logged world must be well-formed and the handler model must satisfy the positive half and the redirect /
    index rule on it (so the random worlds are also model-checked, not only replayed). *)
@@ -12,34 +12,38 @@ WRec == ndJsonDeserialize(IOEnv.WORLDS)
 Rec  == ndJsonDeserialize(IOEnv.TRACE)
 TWorlds == [i \in 1..Len(WRec) |-> MkWorld(WRec[i].root, {WRec[i].nodes[j] : j \in 1..Len(WRec[i].nodes)})]
 
-VARIABLES l, bad
-tvars == <<path, l, bad>>
+\* The records are independent, so they are checked in parallel: the log is cut into chunks of Chunk records,
+\* every chunk is a behaviour l = first, first + 1, ... and TLC's workers walk the chunks concurrently.
+VARIABLE l
+tvars == <<path, l>>
+Chunk == 500
 
 Got(r) == [st |-> r.st, id |-> r.id, ct |-> r.ct, loc |-> r.loc, canary |-> r.canary]
 RecOk(r) ==
-  LET w == TWorlds[r.w]
-      pre == IF r.h = "file_path" THEN <<SLASH>> ELSE Prefix(r.route) IN
-  /\ IsPrefix(pre, r.uri)                                  \* the harness only sends uris the route matches
-  /\ LET rel == Drop(r.uri, Len(pre)) IN
-     /\ Conforms(Expect(r.h, w, rel), r.uri, Got(r))
-     /\ ConfinedAnswer(w, Got(r))
+  LET w == TWorlds[r.w] IN
+  IF r.h = "serve_file"
+  THEN \* route = the configured path relative to the root; the uri is irrelevant
+       Conforms(ExpectFixed(w, r.route), r.uri, Got(r)) /\ ConfinedAnswer(w, Got(r))
+  ELSE LET pre == IF r.h = "file_path" THEN <<SLASH>> ELSE Prefix(r.route) IN
+       /\ IsPrefix(pre, r.uri)                             \* the harness only sends uris the route matches
+       /\ LET rel == Drop(r.uri, Len(pre)) IN
+          /\ Conforms(Expect(r.h, w, rel), r.uri, Got(r))
+          /\ ConfinedAnswer(w, Got(r))
 
-TInit == path = <<>> /\ l = 1 /\ bad = <<>>
-TNext == /\ l <= Len(Rec)
+TInit == /\ path = <<>>
+         /\ l \in {1 + (c - 1) * Chunk : c \in 1..((Len(Rec) + Chunk - 1) \div Chunk)}
+TNext == /\ l < Len(Rec) /\ l % Chunk # 0
          /\ l' = l + 1
-         /\ bad' = IF RecOk(Rec[l]) \/ Len(bad) >= 20 THEN bad ELSE Append(bad, l)
          /\ UNCHANGED path
 TSpec == TInit /\ [][TNext]_tvars
 
-\* checked at the last state: every record consumed and none disagreed (the first 20 disagreeing
-\* records are printed for the driver, which stores them as the replay file)
-AllAgree == (l = Len(Rec) + 1) =>
-              \/ bad = <<>>
-              \/ PrintT(ToJson([rejected |-> [i \in 1..Len(bad) |-> Rec[bad[i]]]])) /\ FALSE
-\* the logged worlds, model-checked (initial state only)
-TraceWorldsOk == (l = 1) => \A i \in 1..Len(TWorlds) :
-                    /\ WorldOk(TWorlds[i])
-                    /\ PositiveHalf(TWorlds[i])
-                    /\ RedirectIndexRule(TWorlds[i])
-                    /\ NoWildcardRule(TWorlds[i])
+\* every record agrees; a disagreeing record is printed for the driver, which stores it as the replay file
+AllAgree == RecOk(Rec[l]) \/ (PrintT(ToJson([rejected |-> <<Rec[l]>>])) /\ FALSE)
+\* the logged worlds, model-checked: world i when l = i (spread over the states so that no single state pays for all)
+TraceWorldsOk == l <= Len(TWorlds) =>
+                    /\ WorldOk(TWorlds[l])
+                    /\ PositiveHalf(TWorlds[l])
+                    /\ RedirectIndexRule(TWorlds[l])
+                    /\ NoWildcardRule(TWorlds[l])
+ASSUME Len(Rec) >= Len(TWorlds)
 =============================================================================
